@@ -492,6 +492,26 @@ func (r *run) main() {
 		r.viol("C05", "initial view differs from the model at %s", df)
 		return
 	}
+	// The caller reuses its defaults struct for something else: overwritten in
+	// place, it must not show through in any later re-stack (the defaults are
+	// what Config was given).
+	defaults.A, defaults.B, defaults.Name, defaults.Limit = defaults.A+7000, -7001, "overwritten by the caller", 7002
+	defaults.Sub.X, defaults.Sub.Y = 7003, "overwritten"
+	for i := range defaults.List {
+		defaults.List[i] += 7100
+	}
+	if defaults.M != nil {
+		for k := range defaults.M {
+			delete(defaults.M, k)
+		}
+		defaults.M["overwritten"] = 7004
+	}
+	if defaults.P != nil {
+		*defaults.P = 7005
+	}
+	if defaults.PSub != nil {
+		defaults.PSub.X = 7006
+	}
 	r.cfgs = append(r.cfgs, &mcfg{val: init, serial: 0, ptr: v0, what: "initial"})
 	r.cur = 0
 	r.recordToken()
